@@ -170,6 +170,10 @@ func (eval Evaluator) PartialTracesSum(ctIn *Ciphertext, offset, n int, opOut *C
 	levelQ := ctIn.Level()
 	levelP := params.PCount() - 1
 
+	if levelP < 0 {
+		return fmt.Errorf("partialtrace: method requires parameters with an auxiliary modulus P (hoisted key-switching)")
+	}
+
 	ringQP := params.RingQP().AtLevel(ctIn.Level(), levelP)
 
 	ringQ := ringQP.RingQ
